@@ -130,7 +130,7 @@ class Unit:
         vc.callees_used.add(self.name)
         for name, fml in getattr(self, 'pre_callee', self.pre)(vc, a):
             vc.check(f'{vc.unit}:pre[{self.fn}]:{name}', fml)
-        o = self.snapshot(vc, a)
+        o = getattr(self, 'snapshot_callee', self.snapshot)(vc, a)
         a.o = o
         cases = list(self.exc_cases(vc, I, a, o))
         if cases:
@@ -145,8 +145,10 @@ class Unit:
                     vc.assume(fml)
                 raise PyRaise(e)
         ret = self.havoc(vc, I, a)
-        for name, fml in self.post(vc, a, o, ret):
+        for name, fml in getattr(self, 'post_callee', self.post)(vc, a, o, ret):
             vc.assume(fml)
+        vc.ghost.setdefault('$first:' + self.fn, ret)     # ghost: results of callee summaries, for the caller's invariants
+        vc.ghost['$last:' + self.fn] = ret
         return ret
 
 
@@ -168,13 +170,23 @@ def params_of(f):
     return [p.arg for p in a.posonlyargs + a.args] + [p.arg for p in a.kwonlyargs]
 
 
-def verify_unit(unit, contracts, repo=None, timeout_ms=10000, max_paths=4000):
-    """Symbolically execute the real body of unit.fn under the unit's contract. Returns UnitResult."""
+def verify_unit(unit, contracts, repo=None, timeout_ms=10000, max_paths=4000, jobs=None, budget=None):
+    """Symbolically execute the real body of unit.fn under the unit's contract. Returns UnitResult.
+    jobs: optional list of (profile index, decision prefix) to explore (default: everything); budget: max number of
+    paths per profile in this call; unexplored prefixes are returned in res.leftover."""
     res = UnitResult(unit)
+    res.leftover = []
     t0 = time.time()
     profiles = unit.profiles or [unit.profile]
-    for prof in profiles:
-        vc = Engine(None, timeout_ms=unit.timeout_ms or timeout_ms, max_paths=max_paths, profile=dict(prof))
+    for pi, prof in enumerate(profiles):
+        start = None
+        if jobs is not None:
+            start = [p for (i, p) in jobs if i == pi]
+            if not start:
+                continue
+        import os as _os
+        scale = float(_os.environ.get('PYVC_TIMEOUT_SCALE', '1'))
+        vc = Engine(None, timeout_ms=int((unit.timeout_ms or timeout_ms) * scale), max_paths=max_paths, profile=dict(prof))
         vc.unit = unit.name + (f'[{prof["name"]}]' if prof.get('name') else '')
         vc.env_used = set()
         vc.callees_used = set()
@@ -249,7 +261,8 @@ def verify_unit(unit, contracts, repo=None, timeout_ms=10000, max_paths=4000):
                 for name, fml in unit.post(vc, a, o, ret):
                     vc.check(name, fml)
 
-            vc.explore(one_path)
+            vc.explore(one_path, start=start, budget=budget)
+            res.leftover += [(pi, list(p)) for p in vc.work]
         except Unsupported as u:
             res.status = 'undecided'
             res.reason = f'outside the encoded subset: {u}'
@@ -270,7 +283,7 @@ def verify_unit(unit, contracts, repo=None, timeout_ms=10000, max_paths=4000):
         res.callees |= vc.callees_used
         res.env_used |= vc.env_used
         res.notes += vc.notes
-        if res.status == 'ok' and vc.stats['normal_exits'] + vc.stats['exc_exits'] == 0:
+        if res.status == 'ok' and vc.stats['normal_exits'] + vc.stats['exc_exits'] == 0 and jobs is None and budget is None:
             res.status = 'error'
             res.reason = 'vacuous: no path reaches an exit of the function (contradictory precondition?)'
     res.wall = time.time() - t0
